@@ -277,3 +277,13 @@ M('c04-to-dict-loop-truthiness', 'C04', 'R4', 'falcon/http_error.py',
             if value:
                 obj[name] = value
 """)
+
+M2('c04-find-handler-remembers-matched-class', 'C04', 'R2', [
+    {'file': 'falcon/app.py', 'old': """            if handler is not None:
+                return handler
+        return None
+""", 'new': """            if handler is not None:
+                self._last_matched = exc
+                return handler
+        return None
+"""}], also=('C19',))
